@@ -141,7 +141,7 @@ def _parts(t):
     return [t]
 
 
-def unit_backward(kind, pattern, ts_grad, nt, varying=False):
+def unit_backward(kind, pattern, ts_grad, nt, varying=False, alias=False):
     """kind: 'function' | 'method' (parameters of an EditableModule); pattern over {T,U,N,X} for the explicit parameters"""
     iv = _iv()
     import xitorch
@@ -155,7 +155,10 @@ def unit_backward(kind, pattern, ts_grad, nt, varying=False):
         params = []
         for i, k in enumerate(pattern):
             if k in "TU":
-                params.append(st.vec("p%d" % i, (2,), (0,), requires_grad=True))
+                if alias and params and i == len(pattern) - 1:
+                    params.append(params[0])        # one tensor passed in two parameter positions
+                else:
+                    params.append(st.vec("p%d" % i, (2,), (0,), requires_grad=True))
             elif k == "N":
                 params.append(st.vec("p%d" % i, (2,), (0,), requires_grad=False))
             else:
@@ -295,6 +298,8 @@ def unit_backward(kind, pattern, ts_grad, nt, varying=False):
         # ---- (1) the augmented dynamics ------------------------------------------------------------------
         for i, call in enumerate(calls[:1] + calls[-1:]):
             tag = "first" if i == 0 else "last"
+            if alias:
+                tag += ",recorded backward" if grad_mode else ",plain backward"
             if varying and i == 0:
                 continue        # the early evaluation is a different function; the later ones are checked in full
             rhs = call["rhs"]
@@ -416,7 +421,8 @@ def unit_backward(kind, pattern, ts_grad, nt, varying=False):
                             kit.reaches(gy0, allparams[idx]) and kit.reaches(out[6 + idx], allparams[idx]))
         c.check("state_change_lock_released", getattr(pfn, "_state_change_allowed", True) is True)
         c.prove("canary", z3.BoolVal(False), kind="canary")
-    return kit.run_unit("backward[%s,%s,ts_grad=%s,nt=%d%s]" % (kind, pattern or "-", ts_grad, nt, ",varying" if varying else ""), run)
+    return kit.run_unit("backward[%s,%s,ts_grad=%s,nt=%d%s%s]" % (kind, pattern or "-", ts_grad, nt, ",varying" if varying else "",
+                                                              ",same_tensor_twice" if alias else ""), run)
 
 
 def kit_producer(make):
@@ -526,5 +532,6 @@ def units(tier):
           for k, p, g, nt in cases]
     us.append(("backward[function,T,ts_grad=False,nt=3,varying]", lambda: unit_backward("function", "T", False, 3, True)))
     us.append(("backward[function,TT,ts_grad=False,nt=4,varying]", lambda: unit_backward("function", "TT", False, 4, True)))
+    us.append(("backward[function,TT,ts_grad=False,nt=3,same_tensor_twice]", lambda: unit_backward("function", "TT", False, 3, False, True)))
     us.append(("tuple_state", unit_tuple_state))
     return us
